@@ -554,7 +554,7 @@ func (ss *sharedStore) get(t *testing.T) storage.StateStorer {
 	}
 	ss.drop()
 	if ss.kind == "leveldb-dir" {
-		d, err := os.MkdirTemp("", "c18-")
+		d, err := os.MkdirTemp(scratchRoot(), "c18-")
 		if err != nil {
 			t.Fatal(err)
 		}
@@ -664,4 +664,14 @@ func opStrings(ops []op) []string {
 		out[i] = o.String()
 	}
 	return out
+}
+
+// scratchRoot prefers a memory-backed directory for the on-disk stores (the driver fsyncs every
+// write; on a shared disk that dominates the run time). The store still works on real files and
+// is closed and reopened from them.
+func scratchRoot() string {
+	if st, err := os.Stat("/dev/shm"); err == nil && st.IsDir() {
+		return "/dev/shm"
+	}
+	return ""
 }
